@@ -39,9 +39,9 @@ CHECKS = {
  "C12": ("deterministic simulation: baton-passed threads under a seeded scheduler (random walk / PCT bounded pre-emption / sticky, yield points at semaphore ops and target calls, line-level pre-emption in traced runs) + target fault plans; event log checked for per-call contiguity and block shape",
          "seeded exploration of interleavings and target faults: every forwarder call's target events are contiguous, blocks have the right shape/order/start time/tags, the semaphore is free afterwards, no schedule deadlocks",
          "pre-emption granularity: synchronisation points, target calls, source lines of real.py in traced runs; after a fired fault tag contents are not compared; sampling (PCT bounded-pre-emption sampling, not exhaustive enumeration)", "3/C12"),
- "C13": ("deterministic simulation: the real Concurrent(Stream)TestSuite.run on a simulated main thread with Thread/Semaphore/Queue rebound to simulator objects; seeded schedules + fault plans (result raises, make_tests/wrap_result raise, KeyboardInterrupt inside get/join/start, crashing runners); deadlock detector and step cap",
-         "seeded exploration: each sub-suite run once on its own thread, all joined before return, every event delivered once in worker order with route code and timestamp, broken-runner reported, abort propagates and running workers are told to stop, no deadlock",
-         "workers honour shouldStop; route codes are strings; 'told to stop' is read when run() unwinds; sampling, not proof", "3/C13"),
+ "C13": ("deterministic simulation: the real Concurrent(Stream)TestSuite.run on a simulated main thread with Thread/Semaphore/Queue rebound to simulator objects; seeded schedules + fault plans (result raises, make_tests/wrap_result raise, KeyboardInterrupt inside get/join/start, crashing runners); optional fault-free second run on the same suite object; deadlock detector and step cap",
+         "seeded exploration: each sub-suite run once on its own thread, all joined before return, every event delivered once in worker order with route code and timestamp, broken-runner reported, abort propagates and running workers are told to stop (and the stop is still readable once all threads have finished), a second run() on the same suite object is unaffected by the first, no deadlock",
+         "workers honour shouldStop; route codes are strings; 'told to stop' is read when run() unwinds and again after all threads have finished; sampling, not proof", "3/C13"),
  "C14": ("deterministic simulation: AsynchronousDeferredRunTest over a virtual-time Twisted reactor (real ReactorBase scheduling, seconds/doIteration replaced); scripted Deferred-returning stages; timeouts and delays from a tie-prone grid; SIGINT/reactor.stop injected at seeded virtual instants; timeline model as oracle",
          "seeded exploration: one outcome per run, stage n+1 starts no earlier than stage n completed, success iff the model timeline is clean, strict timeout/interrupt => error (+stop), reactor clean and log observers restored after every run",
          "tie runs are checked against global invariants only; real reactor not covered; sampling, not proof", "3/C14"),
